@@ -371,6 +371,10 @@ func (s *scratch) cellAt(exp *ref.JDoc, f ref.JSONFormat, variant string, off in
 	return b, n
 }
 
+// otherCell is an unrelated JSON cell decoded between producing and reading
+// the text of the cell under test.
+var otherCell = ref.JSONAppendCell(nil, ref.JObj([]string{"zz"}, []*ref.JDoc{ref.JS("~~~~~~~~ an unrelated document ~~~~~~~~ ~~~~~~~~~~~~~~~~~~~~~~~~~~~~~~~~~~~~~~~~~~~~~~~~~~~~~~")}), ref.JSONNatural)
+
 // examine decodes one cell at one offset and returns what does not match.
 func examine(exp *ref.JDoc, f ref.JSONFormat, data []byte, cellLen, off int) []finding {
 	var txt []byte
@@ -386,6 +390,10 @@ func examine(exp *ref.JDoc, f ref.JSONFormat, data []byte, cellLen, off int) []f
 	case n != cellLen:
 		return []finding{{"json:consumed:" + rc, fmt.Sprintf("consumed %d bytes, the cell has %d", n, cellLen)}}
 	}
+	// decode an unrelated document before reading the text: what CellBytes
+	// returned must be private to its call (a pooled / shared output buffer
+	// would be overwritten here)
+	chk.Catch(func() { replication.CellBytes(otherCell, 0, ref.TJSON, 4, false) })
 	got, perr := Parse(txt)
 	if perr != nil {
 		return []finding{{"json:unparsable:" + rc, fmt.Sprintf("rendered text %q is not in the output grammar: %v", util.Clip(txt), perr)}}
